@@ -55,7 +55,7 @@ def gen_pipe(rng):
                 m.append([f, [rng.choice(["m_" + f.replace(" ", "_"), "m_src", "Mapped Field", "u"])]])
             elif q < 0.93:
                 m.append([f, ["m1_" + f, "m2_" + f]])
-            elif f not in DET_FIELDS:
+            elif f not in DET_FIELDS and f != "m_src":
                 m.append([f, []])          # dropping a field a plain rule matches on would empty its detection
         d = {"kind": "map", "map": m}
         if cat: d["category"] = cat
@@ -256,9 +256,72 @@ def covering(rng):
     return out
 
 
+def compositions(n):
+    if n == 0:
+        yield []
+        return
+    for k in range(1, n + 1):
+        for rest in compositions(n - k):
+            yield [k] + rest
+
+
+def all_trees(leaves, allow_not=True):
+    """every and/or/not tree with exactly these leaves in this order (no double negation)"""
+    n = len(leaves)
+    cores = []
+    if n == 1:
+        cores.append(["ref", leaves[0]])
+    else:
+        for comp in compositions(n):
+            if len(comp) < 2:
+                continue
+            parts, i = [], 0
+            for k in comp:
+                parts.append(leaves[i:i + k]); i += k
+            subs = [list(all_trees(p)) for p in parts]
+            for op in ("and", "or"):
+                for combo in itertools.product(*subs):
+                    cores.append([op, list(combo)])
+    for c in cores:
+        yield c
+        if allow_not:
+            yield ["not", [c]]
+
+
+def exhaustive_ext(tier, rng):
+    """every extended condition with up to 3 leaves over two rules (both referenced), each under one (quick: a
+    sample of 150) or two (thorough: all ~1750 expressions) random backend variants"""
+    docs = [
+        {"title": "T rule_a", "name": "rule_a", "id": IDS["rule_a"], "logsource": {"category": "c"},
+         "detection": {"sel": {"src": 1}, "condition": "sel"}},
+        {"title": "T rule_b", "name": "rule_b", "logsource": {"category": "c"},
+         "detection": {"s1": {"u": 2}, "s2": {"y": 3}, "condition": ["s1", "s2"]}},
+    ]
+    exprs = []
+    for n in (1, 2, 3):
+        for asg in itertools.product(["rule_a", "rule_b"], repeat=n):
+            if n > 1 and len(set(asg)) < 2:
+                continue
+            exprs += list(all_trees(list(asg)))
+    if tier == "quick":
+        exprs = rng.sample(exprs, 150)
+    out = []
+    for t in exprs:
+        for _ in range(1 if tier == "quick" else 2):
+            k = gen_k(rng)
+            k["prec"] = rng.choice(PRECS)
+            names = sorted(set(leaves(t)))
+            corr = {"type": rng.choice(["temporal", "temporal_ordered"]), "timespan": "5m", "condition": spell(t, rng)}
+            if rng.random() < 0.5:
+                corr["rules"] = names
+            out.append({"k": k, "pipe": [], "xsrc": t,
+                        "docs": [d for d in copy.deepcopy(docs) if d["name"] in names] + [{"title": "T top", "name": "top", "correlation": corr}]})
+    return out
+
+
 def gen_corr(tier, rng):
-    n = 450 if tier == "quick" else 12000
-    out = covering(rng)
+    n = 400 if tier == "quick" else 12000
+    out = covering(rng) + exhaustive_ext(tier, rng)
     out += [gen_case(rng, tier) for _ in range(n)]
     return out
 
@@ -573,7 +636,7 @@ PROPERTY = Property(
          "leaves and nested not, spelled with minimal and redundant parentheses; x backend variants (6 precedence orders, parenthesize, "
          "single-rule template, normalisation templates, typing, timespan mapping/seconds/as-is, no-field group-by, fields templates, "
          "sub-query finalisation, per-type or default frame, query post-processing) x pipelines (none, 1:1 / 1:n / 1:0 field mappings, "
-         "prefix/suffix, two items, log-source-conditioned items). A (type x unit x operator) covering block is always included. "
+         "prefix/suffix, two items, log-source-conditioned items). A (type x unit x operator) covering block is always included, and all extended conditions with up to 3 leaves over two rules (~1750 expressions, incl. nested not and same-operator nesting; quick: a sample of 150) under random precedence orders. "
          "non-trivial = aliases, an extended condition, >= 2 references or a pipeline; distinct by case hash. "
          "timespan suite: all counts below 130 (quick) / 1500 (thorough) x 7 units, hostile spellings, random counts up to 10^12",
     assumptions=[
